@@ -16,7 +16,7 @@ import sys
 import copybook_gen as G
 import layout_common as LC
 
-GEN = ["GlobalsParams", "SchemaMakerParams"]
+GEN = ["GlobalsParams", "SchemaMakerParams", "StructureParams"]
 RULE = ("directed histories (the two repaired defects, a parse that raises half way, a kept navigator over an ODO + REDEFINES "
         "record while other records are read, documents with forward $ref, reused makers) and random histories of 3-25 calls "
         "(quick; up to 60 thorough) drawn from: parse one of ~40 copybooks (hand-written fragments without level 01, several "
